@@ -2,6 +2,7 @@ package e4
 
 import (
 	"fmt"
+	"regexp"
 	"strings"
 
 	g "github.com/bobertlo/gmars"
@@ -51,6 +52,25 @@ func insText(t, d int, blk string) (op, a, b string) {
 		}
 		return "spl", inner + "+" + outer, inner
 	}
+}
+
+var twinRe = regexp.MustCompile(`\b(jink|n|blk)\b`)
+
+// caseTwins renames jink, n and blk to I, J and K. Labels are case-sensitive,
+// so the program means the same; only a counter substitution that ignores
+// case confuses them with the counters i, j, k.
+func caseTwins(src string) string {
+	head, rest, _ := strings.Cut(src, "\n") // ("n equ 2") ; the comment on the second line is left alone
+	rest2 := rest
+	cmt := ""
+	if i := strings.Index(rest, " ; rof for i j k"); i >= 0 {
+		cmt = " ; rof for i j k"
+		rest2 = rest[:i] + rest[i+len(cmt):]
+	}
+	_ = cmt
+	return twinRe.ReplaceAllStringFunc(head+"\n"+rest2, func(w string) string {
+		return map[string]string{"jink": "I", "n": "J", "blk": "K"}[w]
+	})
 }
 
 // forSource renders the program with FOR/ROF blocks.
@@ -216,8 +236,9 @@ func (c *Ctx) checkForN(items []FItem, epiSrc string, epi *ref.AIns, note string
 		strings.ReplaceAll(strings.ReplaceAll(src, " for ", " FOR "), "rof\n", "ROF ; end of block\n"),
 		"org 0\n" + src + "end\n",
 		strings.ReplaceAll(strings.ReplaceAll(src, ", ", " , "), "\n", " ; c\n"), // a trailing comment on every line, blanks around the commas
+		caseTwins(src), // the outside label, the EQU and the block label spelled I, J, K: the counters' names in the other case
 	} {
-		if (c.unit+vi)%4 != 0 {
+		if (c.unit+vi)%5 != 0 {
 			continue // one variant per program, rotating
 		}
 		sv := mkCase(flat, m, cfg, v, fmt.Sprintf("%s; surface variant %d", note, vi))
@@ -415,7 +436,7 @@ func (c *Ctx) RunC08(tier string) {
 			c.checkForDeep(deep(cs), fmt.Sprintf("nest %v", cs))
 		}
 	}
-	rep.Bound += "; sequences of 1..14 one-line blocks with counts 0..2; nests 6x3x1, 3x3x3, 2x2x2, 6x1x1, 1x3x3; single labelled blocks with every count 7..100, bodies of 5..12 lines (counts 0..3, alone and nested), a 12 x i nest, nests of depth 4 and 5; one surface variant per program (CR-LF, upper-case FOR/ROF with a comment after ROF, between ORG and END, a trailing comment on every line)"
+	rep.Bound += "; sequences of 1..14 one-line blocks with counts 0..2; nests 6x3x1, 3x3x3, 2x2x2, 6x1x1, 1x3x3; single labelled blocks with every count 7..100, bodies of 5..12 lines (counts 0..3, alone and nested), a 12 x i nest, nests of depth 4 and 5; one surface variant per program (CR-LF, upper-case FOR/ROF with a comment after ROF, between ORG and END, a trailing comment on every line, labels spelled like the counters in the other case)"
 	c.runC08Comments()
 	rep.Counters["c08:structure-trees"] += int64(n) / int64(c.Sh.N)
 	rep.Sample(forSource([]FItem{{Block: true, Label: "blk", Counter: "i", Count: "n+1", Items: []FItem{{Tmpl: 2}, {Block: true, Counter: "j", Count: "i", Items: []FItem{{Tmpl: 1}}}}}}, "jmp blk\n"))
